@@ -23,6 +23,8 @@ def run(ctx):
     for _ in range(60000 if big else 5000):
         t, tree = g.document()
         docs.append((t.encode(), dict(g.meta), "generated"))
+    for t, tree in docgen.header_order_documents(rng, 8000 if big else 1500):
+        docs.append((t.encode(), {"ml": [], "comments": [], "adjacent": True, "respelled": False}, "header-order"))
     for n, d in corpus_files():
         if n.startswith("valid"):
             try:
